@@ -234,3 +234,74 @@ func (s *SelectStmt) checkAggrFuncArg(arg Expression) error {
 	}
 	return nil
 }
+
+// listFieldNameRefs collects the names used as values inside an expression,
+// function names are not values.
+func listFieldNameRefs(expr Expression, names []string) []string {
+	switch e := expr.(type) {
+	case *NameExpr:
+		names = append(names, e.Data)
+	case *BinaryOpExpr:
+		names = listFieldNameRefs(e.Left, names)
+		names = listFieldNameRefs(e.Right, names)
+	case *NotExpr:
+		names = listFieldNameRefs(e.Right, names)
+	case *FunctionCallExpr:
+		for _, arg := range e.Args {
+			names = listFieldNameRefs(arg, names)
+		}
+	case *ListExpr:
+		for _, item := range e.List {
+			names = listFieldNameRefs(item, names)
+		}
+	case *FieldAccessExpr:
+		names = listFieldNameRefs(e.Left, names)
+	}
+	return names
+}
+
+// checkFieldNameCycle refuses a select field that is defined in terms of
+// itself, directly (upper(u) as u) or through other named fields. Such a
+// definition can never be evaluated and would recurse forever.
+func (s *SelectStmt) checkFieldNameCycle() error {
+	const (
+		visiting = 1
+		done     = 2
+	)
+	// A name refers to the first field with that name
+	findField := func(name string) int {
+		for i, fname := range s.FieldNames {
+			if fname == name {
+				return i
+			}
+		}
+		return -1
+	}
+	state := make([]int, len(s.Fields))
+	var visit func(idx int) error
+	visit = func(idx int) error {
+		state[idx] = visiting
+		for _, name := range listFieldNameRefs(s.Fields[idx], nil) {
+			ridx := findField(name)
+			if ridx < 0 || state[ridx] == done {
+				continue
+			}
+			if state[ridx] == visiting {
+				return NewSyntaxError(s.Fields[idx].GetPos(), "Field %s is defined by itself", name)
+			}
+			if err := visit(ridx); err != nil {
+				return err
+			}
+		}
+		state[idx] = done
+		return nil
+	}
+	for i := range s.Fields {
+		if state[i] == 0 {
+			if err := visit(i); err != nil {
+				return err
+			}
+		}
+	}
+	return nil
+}
